@@ -180,6 +180,10 @@ def _run(ctx, pq):
     for vc, res in zip(vcases, L.run_dataset_jobs(ctx, check_verify, vcases, "v", lambda c: {"verify_case": c})):
         ctx.case({"verify": vc}, trivial=False)
         ctx.count("V.attribute", vc["attr"])
+    fcases = gen_verify_file_cases()
+    for fc, res in zip(fcases, L.run_dataset_jobs(ctx, check_verify_files, fcases, "vf", lambda c: {"verify_files_case": c})):
+        ctx.case({"verify_files": fc}, trivial=False)
+        ctx.count("V.file_deviation", "%s/%d files/position %d" % (fc["deviation"], fc["files"], fc["position"]))
     # ---- several colliding datasets in one process (stream P)
     pcases = [gen_pair_case(rng, i) for i in range(12 if quick else 80)]
     for pc, res in zip(pcases, L.run_dataset_jobs(ctx, check_pair, pcases, "p", lambda c: {"pair_case": c})):
@@ -700,6 +704,73 @@ def _mutate_schema(fmd, attr):
         raise ValueError(attr)
 
 
+# whole-file deviations at EVERY position of the list, for lists of 2 (legacy path) and of 3 / 4 (footer fast path)
+FILE_DEVIATIONS = ["extra-column", "missing-column", "dtype", "nullability", "column-renamed"]
+
+
+def gen_verify_file_cases():
+    out = []
+    for dev in FILE_DEVIATIONS:
+        for n in (2, 3, 4):
+            for pos in sorted({0, n // 2, n - 1}):
+                out.append({"deviation": dev, "files": n, "position": pos})
+    return out
+
+
+def check_verify_files(case, root, pq, ctx=None, verbose=False):
+    """one file of the list deviates from the others as a WHOLE (an extra column, a missing column, another dtype, another nullability, a
+    renamed column); with verification every way of opening the list must refuse it, wherever the deviating file stands"""
+    import numpy as np
+    import pandas as pd
+    from fastparquet import write, ParquetFile, writer
+    os.makedirs(root, exist_ok=True)
+    dev, n, pos = case["deviation"], case["files"], case["position"]
+    paths = []
+    for j in range(n):
+        df = pd.DataFrame({"id": np.arange(3 * j, 3 * j + 3, dtype="int64"), "v": np.arange(3) * 0.5, "s": pd.Series(["a", "b", "c"], dtype="str")})
+        kw = {"has_nulls": False}
+        if j == pos:
+            if dev == "extra-column":
+                df["e"] = np.arange(3, dtype="int64")
+            elif dev == "missing-column":
+                df = df[["id", "v"]]
+            elif dev == "dtype":
+                df["v"] = df["v"].astype("float32")
+            elif dev == "nullability":
+                kw = {"has_nulls": True}
+            else:
+                df = df.rename(columns={"s": "t"})
+        p = os.path.join(root, "part.%d.parquet" % j)
+        write(p, df, **kw)
+        paths.append(p)
+    problems = []
+    vias = {"list": lambda: ParquetFile(list(paths), verify=True),
+            "directory": lambda: ParquetFile(root, verify=True),
+            "merge": lambda: writer.merge(list(paths)),                       # verify_schema=True is merge's default
+            "instances": lambda: ParquetFile([ParquetFile(p) for p in paths], verify=True)}
+    for via, fn in vias.items():
+        try:
+            fn()
+            raised = None
+        except Exception as e:      # noqa
+            raised = type(e).__name__
+        finally:
+            for junk in ("_metadata", "_common_metadata"):
+                try:
+                    os.unlink(os.path.join(root, junk))
+                except OSError:
+                    pass
+        if raised is None:
+            problems.append("%s with verification: file %d of %d deviates (%s), no error raised" % (via, pos, n, dev))
+            if ctx is not None:
+                ctx.fail({"component": "verify_schema", "deviation": dev, "via": via, "position": "first" if pos == 0 else ("last" if pos == n - 1 else "middle")},
+                         {"verify_files_case": case}, problems[-1])
+    if verbose:
+        for p in problems:
+            print("PROBLEM:", p)
+    return {"problems": problems, "trivial": False, "vias": ["verify-files:" + dev]}
+
+
 def flatten_schema(schema):
     """list of SchemaElement ThriftObjects -> the model's elements: ((path-of-field-ids atom) ...), None / dynamic keys left out"""
     def walk(d, pre, out):
@@ -929,6 +1000,16 @@ def replay(rep):
             return 1
     else:
         case = rep["case"]
+    if "verify_files_case" in case:
+        tmp = tempfile.mkdtemp(prefix="verif-C14-replay-", dir="/tmp")
+        try:
+            print(json.dumps(case["verify_files_case"]))
+            out = C.pmap(lambda c: check_verify_files(c, os.path.join(tmp, "vf"), None, None, verbose=True)["problems"], [case["verify_files_case"]], nproc=1, job_timeout=300)[0]
+            bad = bool(out) or (isinstance(out, dict) and "__crashed__" in out)
+            print("PROPERTY FAILS" if bad else "property holds on this input", out if isinstance(out, dict) else "")
+            return 1 if bad else 0
+        finally:
+            shutil.rmtree(tmp, ignore_errors=True)
     if "verify_case" in case:
         tmp = tempfile.mkdtemp(prefix="verif-C14-replay-", dir="/tmp")
         try:
